@@ -267,7 +267,33 @@
     (def u (if m (try (do (unmarshal m) "ok") ([e] "err")) "-"))
     (print "deep " d " marshal " (if m "ok" "err") " unmarshal " u " " (if m (length m) 0))))
 
+(defn main-chan []
+  # channels with queued integers (ring buffer rotated by take/give so that head > tail occurs), open and closed
+  (repeat ncases
+    (def limit (case (rnd 4) 0 0 1 1 2 (+ 1 (rnd 300)) (+ 1 (rnd 20))))
+    (def ch (ev/chan (max limit 1)))
+    (def cap (max limit 1))
+    (def want (rnd (+ 1 cap)))
+    (def items @[])
+    # rotate: give k, take k, then fill
+    (def rot (rnd (+ 1 cap)))
+    (repeat rot (ev/give ch 0))
+    (repeat rot (ev/take ch))
+    (repeat want (def v (gen-int)) (ev/give ch v) (array/push items v))
+    (def closed (chance 30))
+    (when closed (ev/chan-close ch))
+    (def bytes (marshal ch))
+    (def ch2 (unmarshal bytes))
+    # a closed channel does not hand out its queue any more: compare it through its own marshalled form
+    (def same-bytes (= (string (marshal ch2)) (string bytes)))
+    (def n2 (ev/count ch2))
+    (def got @[])
+    (unless closed (repeat n2 (array/push got (ev/take ch2))))
+    (def ok (and same-bytes (= n2 (length items)) (or closed (deep= got items)) (= (ev/capacity ch2) (ev/capacity ch))))
+    (print "chan " (if ok "ok" "FAIL") " 0 " (if closed 1 0) " " (ev/capacity ch) " " (hex bytes) " " (string/join (map |(string "i" $) items) " "))))
+
 (case mode
+  "chan" (main-chan)
   "gen" (main-gen)
   "deep" (main-deep)
   (error (string "unknown mode " mode)))
